@@ -342,7 +342,7 @@ fn hfa(r: &mut Rng) -> String {
 
 pub fn gen_c16<W: Write>(out: &mut W, thorough: bool, seed: u64) {
     let mut r = Rng::new(seed ^ 0xC16);
-    let n = if thorough { 20000 } else { 300 };
+    let n = if thorough { 5000 } else { 300 };
     let names = ["x", "y", "z", "long_name_1", "fx_eurusd"];
     // built-in tables for the named calendars of the model
     for name in crate::dates::NAMES {
